@@ -39,6 +39,12 @@ type AVSTx struct {
 }
 
 func (w *World) User(i int) Account {
+	// indexes from 100 on name the OPERATOR accounts: an operator may register itself as an AVS and
+	// then call the AVS precompile for itself (the only way an externally owned AVS can name an
+	// operator that is also the signer of the transaction)
+	if i >= 100 && len(w.Ops) > 0 {
+		return w.Ops[(i-100)%len(w.Ops)].Account
+	}
 	n := len(w.Users)
 	return w.Users[((i%n)+n)%n]
 }
@@ -118,7 +124,7 @@ func init() {
 			bt := &BuiltTx{Op: op, Method: method}
 			name := op.S
 			if name == "" {
-				name = fmt.Sprintf("avs%d", ((op.A%3)+3)%3)
+				name = avsName(op.A)
 			}
 			if name == "-" {
 				name = ""
@@ -177,7 +183,7 @@ func init() {
 		bt := &BuiltTx{Op: op, Method: "deregisterAVS"}
 		name := op.S
 		if name == "" {
-			name = fmt.Sprintf("avs%d", ((op.A%3)+3)%3)
+			name = avsName(op.A)
 			if info, err := r.Node.App.AVSManagerKeeper.GetAVSInfo(ctx, u.Eth.String()); err == nil && info != nil && info.Info != nil {
 				name = info.Info.Name
 			}
@@ -397,4 +403,11 @@ func protoBytesField(b []byte, num int, v []byte) []byte {
 	}
 	b = append(b, byte(n))
 	return append(b, v...)
+}
+
+func avsName(a int) string {
+	if a >= 100 {
+		return fmt.Sprintf("avs%d", a)
+	}
+	return fmt.Sprintf("avs%d", ((a%3)+3)%3)
 }
